@@ -1322,6 +1322,233 @@ func genCreate(rng *rand.Rand) *Prog {
 }
 
 // ---------------------------------------------------------------------------
+// return-data buffer: a call (mostly to the identity precompile) with a
+// non-empty input area, then memory writes over and around that area, then
+// RETURNDATASIZE / RETURNDATACOPY. The buffer must keep the bytes of call time.
+
+var callKinds = []byte{0xf1, 0xf2, 0xf4, 0xfa}
+
+// calleeInit wraps runtime code into an initcode that deploys it.
+func calleeInit(runtime []byte) []byte {
+	r := byte(len(runtime))
+	return append([]byte{0x60, r, 0x60, 0x0c, 0x60, 0x00, 0x39, 0x60, r, 0x60, 0x00, 0xf3}, runtime...)
+}
+
+// emitCall pushes the operands (a callee address already on the stack is
+// DUPed when addr == nil) and the call instruction.
+func emitCall(a *asm, kind byte, addr *big.Int, inOff, inSize, outOff, outSize int) {
+	a.pushInt(outSize)
+	a.pushInt(outOff)
+	a.pushInt(inSize)
+	a.pushInt(inOff)
+	n := 4
+	if kind == 0xf1 || kind == 0xf2 {
+		a.pushInt(0)
+		n = 5
+	}
+	if addr == nil {
+		a.op(byte(0x80 + n)) // DUP(n+1): the address below the operands
+	} else {
+		a.push(addr)
+	}
+	a.op(0x63, 0xff, 0xff, 0xff, 0xff) // gas operand: capped to 63/64 of what is left
+	a.op(kind)
+}
+
+func genRetData(rng *rand.Rand, ft feat) *Prog {
+	a := &asm{ft: ft}
+	var blob []byte
+	kind := callKinds[rng.Intn(4)]
+	inOff, inSize := rng.Intn(130), 1+rng.Intn(96)
+	if rng.Intn(20) == 0 {
+		inSize = 0
+	}
+	rl := inSize // expected length of the return data
+	var addr *big.Int
+	switch x := rng.Intn(20); {
+	case x < 12:
+		addr = bi(4)
+	case x < 14:
+		addr, rl = bi(2), 32
+	case x < 16:
+		addr, rl = bi(3), 32
+	case x < 17:
+		addr, rl = fromHex("00000000000000000000000000dead00000000000000000000000000000000beef"), 0
+		addr.Rsh(addr, 96)
+	default: // an ordinary callee, created first
+		echo := []byte{0x36, 0x60, 0x00, 0x60, 0x00, 0x37, 0x36, 0x60, 0x00}
+		var rt []byte
+		switch y := rng.Intn(6); y {
+		case 0, 1:
+			rt = append(echo, 0xf3)
+		case 2:
+			rt = append(append([]byte{0x7f}, evmref.Word32(randWord(rng))...), 0x60, 0x00, 0x52, 0x60, 0x28, 0x60, 0x00, 0xf3)
+			rl = 40
+		case 3:
+			rt = append(echo, 0xfd)
+		case 4:
+			rt, rl = []byte{0xfe}, 0
+		default: // writes storage: an exceptional halt under STATICCALL
+			rt = append([]byte{0x60, 0x01, 0x60, 0x01, 0x55}, append(echo, 0xf3)...)
+			if kind == 0xfa {
+				rl = 0
+			}
+		}
+		blob = calleeInit(rt)
+		n := len(blob)
+		a.pushInt(n)
+		a.pushLabel(labelCodeEnd, 0)
+		a.op(0x61, 0x03, 0x00, 0x39)
+		a.pushInt(n)
+		a.op(0x61, 0x03, 0x00, 0x60, 0x00, 0xf0) // the callee's address stays on the stack
+	}
+	l := 160 + 32*rng.Intn(4)
+	a.pushInt(l)
+	a.pushInt(0)
+	a.pushInt(0)
+	a.op(0x37) // memory[0,l) = pattern
+	if rng.Intn(2) == 0 {
+		a.pushInt(1)
+		a.pushInt(0x600 + rng.Intn(0x800))
+		a.op(0x53) // expand now, so that later writes do not move the memory
+	}
+	outOff, outSize := 0, 0
+	if rng.Intn(2) == 0 { // an output area that does not overlap the input area
+		outSize = 1 + rng.Intn(64)
+		if inOff >= outSize && rng.Intn(2) == 0 {
+			outOff = rng.Intn(inOff - outSize + 1)
+		} else {
+			outOff = inOff + inSize + rng.Intn(64)
+		}
+	}
+	emitCall(a, kind, addr, inOff, inSize, outOff, outSize)
+	if rng.Intn(2) == 0 {
+		a.op(0x50)
+	}
+	near := func() int {
+		o := inOff - 32 + rng.Intn(inSize+64)
+		if o < 0 {
+			o = 0
+		}
+		return o
+	}
+	for k := 1 + rng.Intn(5); k > 0; k-- {
+		if rng.Intn(4) == 0 { // a memory expansion first
+			a.pushInt(rng.Intn(256))
+			a.pushInt(0x400 + rng.Intn(0x3000))
+			a.op(0x53)
+		}
+		switch w := rng.Intn(5); {
+		case w == 0:
+			a.pushAny(rng, randWord(rng))
+			a.pushInt(near())
+			a.op(0x52)
+		case w == 1:
+			a.pushInt(rng.Intn(256))
+			a.pushInt(near())
+			a.op(0x53)
+		case w == 2 && ft.mcopy:
+			a.pushInt(1 + rng.Intn(64))
+			a.pushInt(rng.Intn(0x300))
+			a.pushInt(near())
+			a.op(0x5e)
+		case w == 3:
+			a.pushInt(1 + rng.Intn(64))
+			a.pushInt(rng.Intn(200))
+			a.pushInt(near())
+			a.op(0x39)
+		default:
+			a.pushInt(1 + rng.Intn(64))
+			a.pushInt(rng.Intn(l))
+			a.pushInt(near())
+			a.op(0x37)
+		}
+	}
+	a.op(0x3d) // RETURNDATASIZE stays on the stack
+	copyOut := func(dst int) {
+		switch v := rng.Intn(12); {
+		case v < 6:
+			a.pushInt(rl)
+			a.pushInt(0)
+		case v < 7:
+			a.op(0x3d) // size = RETURNDATASIZE
+			a.pushInt(0)
+		case v < 8 && rl > 0:
+			o := rng.Intn(rl)
+			a.pushInt(rng.Intn(rl - o + 1))
+			a.pushInt(o)
+		case v < 9:
+			a.pushInt(0)
+			a.pushInt(rl) // empty copy at the very end: allowed
+		case v < 10:
+			if rng.Intn(2) == 0 {
+				a.pushInt(1)
+				a.pushInt(rl)
+			} else {
+				a.pushInt(rl + 1)
+				a.pushInt(0)
+			}
+		case v < 11:
+			a.pushInt(0)
+			a.pushInt(rl + 1 + rng.Intn(3)) // empty copy past the end: exceptional halt
+		default:
+			a.pushInt(rng.Intn(2))
+			a.push([]*big.Int{pow2(64), add(pow2(64), -1), wMax, pow2(255)}[rng.Intn(4)])
+		}
+		a.pushInt(dst)
+		a.op(0x3e)
+	}
+	copyOut(0x200 + rng.Intn(64))
+	if rng.Intn(3) == 0 {
+		copyOut(0x2a0)
+	}
+	tail := "return"
+	if rng.Intn(10) == 0 {
+		tail = "revert"
+	}
+	return &Prog{Body: a.finish(), Data: patternData(288), Tail: tail, Blob: blob, HiGas: true}
+}
+
+// genOverlap: the output area of the call lies inside / across its input area.
+// Recorded, not judged (the call opcodes are outside the property's opcode list).
+func genOverlap(i int, rng *rand.Rand) *Prog {
+	kind := callKinds[i%4]
+	inOff, inSize := 0, 32
+	outOff, outSize := 16, 32
+	if i >= 4 {
+		inOff, inSize = rng.Intn(64), 2+rng.Intn(96)
+		outOff = inOff + 1 + rng.Intn(inSize-1)
+		if rng.Intn(3) == 0 && inOff > 0 {
+			outOff = inOff - 1 - rng.Intn(inOff)
+		}
+		outSize = 1 + rng.Intn(96)
+	}
+	a := &asm{}
+	a.pushInt(192)
+	a.pushInt(0)
+	a.pushInt(0)
+	a.op(0x37)
+	emitCall(a, kind, bi(4), inOff, inSize, outOff, outSize)
+	a.op(0x3d)
+	a.pushInt(0)
+	a.pushInt(0x200)
+	a.op(0x3e) // RETURNDATACOPY(0x200, 0, RETURNDATASIZE)
+	return &Prog{Body: a.finish(), Data: patternData(192), Tail: "return", HiGas: true, Record: true, Op: evmref.Name(kind),
+		Note: "identity precompile, in=[" + itoa3(inOff) + "," + itoa3(inOff+inSize) + ") out=[" + itoa3(outOff) + "," + itoa3(outOff+outSize) + ")"}
+}
+
+func itoa3(x int) string {
+	if x == 0 {
+		return "0"
+	}
+	s := ""
+	for ; x > 0; x /= 10 {
+		s = string([]byte{byte('0' + x%10)}) + s
+	}
+	return s
+}
+
+// ---------------------------------------------------------------------------
 
 func families(r *mon.Run, cfgName string, ft feat, defined [256]bool) []family {
 	var fams []family
@@ -1399,6 +1626,8 @@ func families(r *mon.Run, cfgName string, ft feat, defined [256]bool) []family {
 		}
 		return genCreate(rnd("create", i))
 	}})
+	fams = append(fams, family{"retdata", r.Pick(70000, 3000000) / scale, func(i int) *Prog { return genRetData(rnd("retdata", i), ft) }})
+	fams = append(fams, family{"overlap", r.Pick(2000, 40000) / scale, func(i int) *Prog { return genOverlap(i, rnd("overlap", i)) }})
 	mc := memCases(ft)
 	fams = append(fams, family{"mem", len(mc), func(i int) *Prog { return mc[i].prog() }})
 	tc := termCases(ft)
